@@ -110,15 +110,28 @@ class RawPayloadDecoder(AbstractSimplePayloadDecoder):
 
             return
 
+        component = noValue
+
         while True:
             for value in decodeFun(
                     substrate, asn1Spec, tagSet, length,
                     allowEoo=True, **options):
 
-                if value is eoo.endOfOctets:
-                    return
+                if isinstance(value, SubstrateUnderrunError):
+                    yield value
+                    continue
 
-                yield value
+                if value is eoo.endOfOctets:
+                    break
+
+                component = value
+
+            if value is eoo.endOfOctets:
+                break
+
+        # the decoded value must be the last item yielded even if the
+        # end-of-octets marker arrived after an underrun
+        yield component
 
 
 rawPayloadDecoder = RawPayloadDecoder()
@@ -1203,6 +1216,7 @@ class ChoicePayloadDecoder(ConstructedPayloadDecoderBase):
 
                 if isinstance(component, SubstrateUnderrunError):
                     yield component
+                    continue
 
                 if component is eoo.endOfOctets:
                     break
